@@ -364,3 +364,203 @@ def _paglinks(ix, driver, i, op, res):
 
 
 hook_paglinks = wrap(_paglinks)
+
+
+# ------------------------------------------------------------------------------------- C14
+def _digest(raws):
+    import hashlib
+    h = hashlib.sha256()
+    for r in raws:
+        h.update(b"|%d|" % len(r))
+        h.update(r)
+    return h.hexdigest()
+
+
+def readonly_calls(ix, driver, salt):
+    """(name, thunk) for every read-only request with an argument grid that includes LRUs
+    absent from the index, unknown webentities, wrong prefixes, every switch, tokens."""
+    t = ix.t
+    pool = pool_of(ix, driver)
+    if len(pool) > 40:
+        step = max(1, len(pool) // 40)
+        pool = pool[salt % step::step]
+    wes, _ = guarded(lambda: _webentities(ix, salt))
+    wes = list(wes or [])
+    unknown = (max([w for w, _ in wes] + [0]) + 7, [pool[0]] if pool else [b"s:zz|"])
+    wrongp = (wes[0][0], [b"s:nowhere|h:x|"]) if wes else None
+    calls = []
+
+    def add(name, fn):
+        calls.append((name, fn))
+    for l in pool:
+        add("retrieve_prefix", lambda l=l: t.retrieve_prefix(l))
+        add("retrieve_webentity", lambda l=l: t.retrieve_webentity(l))
+        add("get_potential_prefix", lambda l=l: t.get_potential_prefix(l))
+        add("get_webentity_by_prefix", lambda l=l: t.get_webentity_by_prefix(l))
+        add("expand_prefix", lambda l=l: t.expand_prefix(l))
+        for a, b, c in ((True, True, True), (True, False, False), (False, True, False), (False, False, True)):
+            add("get_page_links", lambda l=l, a=a, b=b, c=c: t.get_page_links(l, a, b, c))
+        for wgt in (False, True):
+            add("get_page_indegree", lambda l=l, w=wgt: t.get_page_indegree(l, w))
+            add("get_page_outdegree", lambda l=l, w=wgt: t.get_page_outdegree(l, w))
+            add("get_page_degree", lambda l=l, w=wgt: t.get_page_degree(l, w))
+    targets = wes + [unknown] + ([wrongp] if wrongp else [])
+    for wid, ps in targets:
+        add("get_webentity_pages", lambda w=wid, p=ps: t.get_webentity_pages(w, p))
+        add("get_webentity_crawled_pages", lambda w=wid, p=ps: t.get_webentity_crawled_pages(w, p))
+        for k, dp in ((1, None), (3, 0), (10, 1)):
+            add("get_webentity_most_linked_pages", lambda w=wid, p=ps, k=k, dp=dp:
+                t.get_webentity_most_linked_pages(w, p, pages_count=k, max_depth=dp))
+        add("get_webentity_parent_webentities", lambda w=wid, p=ps: t.get_webentity_parent_webentities(w, p))
+        add("get_webentity_child_webentities", lambda w=wid, p=ps: t.get_webentity_child_webentities(w, p))
+        for a in (False, True):
+            for b in (False, True):
+                for c in (False, True):
+                    add("get_webentity_pagelinks", lambda w=wid, p=ps, a=a, b=b, c=c:
+                        t.get_webentity_pagelinks(w, p, include_inbound=a, include_internal=b, include_outbound=c))
+        add("get_webentity_outlinks", lambda w=wid, p=ps: t.get_webentity_outlinks(w, p))
+        add("get_webentity_inlinks", lambda w=wid, p=ps: t.get_webentity_inlinks(w, p))
+        add("get_webentity_outdegree", lambda w=wid, p=ps: t.get_webentity_outdegree(w, p))
+        add("get_webentity_indegree", lambda w=wid, p=ps: t.get_webentity_indegree(w, p))
+        add("get_webentity_degree", lambda w=wid, p=ps: t.get_webentity_degree(w, p))
+        for co in (False, True):
+            def pag(w=wid, p=ps, co=co):
+                tok, out = None, []
+                for _ in range(12):
+                    r = t.paginate_webentity_pages(w, p, page_count=2, pagination_token=tok, crawled_only=co)
+                    out.append(r)
+                    if r["done"]:
+                        break
+                    tok = r["token"]
+                return out
+            add("paginate_webentity_pages", pag)
+        for io in ((True, False), (True, True), (False, True), (False, False)):
+            def pagl(w=wid, p=ps, io=io):
+                tok, out = None, []
+                for _ in range(12):
+                    r = t.paginate_webentity_pagelinks(w, p, include_internal=io[0], include_outbound=io[1],
+                                                       source_page_count=1, pagination_token=tok)
+                    out.append(r)
+                    if r["done"]:
+                        break
+                    tok = r["token"]
+                return out
+            add("paginate_webentity_pagelinks", pagl)
+        add("paginate_webentity_pages(bad token)", lambda w=wid, p=ps:
+            t.paginate_webentity_pages(w, p, page_count=1, pagination_token="0#3zZ"))
+        add("paginate_webentity_pagelinks(bad token)", lambda w=wid, p=ps:
+            t.paginate_webentity_pagelinks(w, p, source_page_count=1, pagination_token="7#1"))
+    for slow in (False, True):
+        for out in (True, False):
+            for auto in (False, True):
+                fn = t.get_webentities_links_slow if slow else t.get_webentities_links
+                add("get_webentities_links" + ("_slow" if slow else ""),
+                    lambda fn=fn, out=out, auto=auto: fn(out=out, include_auto=auto))
+    add("get_webentities_inlinks", lambda: t.get_webentities_inlinks())
+    add("get_webentities_outlinks", lambda: t.get_webentities_outlinks(include_auto=True))
+    add("links_iter", lambda: (list(t.links_iter(out=True)), list(t.links_iter(out=False))))
+    add("pages_iter", lambda: [(l, n.is_crawled()) for n, l in t.pages_iter()])
+    add("webentity_prefix_iter", lambda: [(l, n.webentity()) for n, l in t.webentity_prefix_iter()])
+    add("count_pages", lambda: t.count_pages())
+    add("count_crawled_pages", lambda: t.count_crawled_pages())
+    add("count_links", lambda: t.count_links())
+    add("metrics", lambda: t.metrics())
+    add("links_metrics", lambda: t.links_metrics())
+    return calls
+
+
+def _readonly(ix, driver, i, op, res):
+    rows = {}
+    for name, fn in readonly_calls(ix, driver, i):
+        before = _digest(ix.raw())
+        del impl.WRITE_LOG[:]
+        val, e = guarded(fn)
+        wrote = len(impl.WRITE_LOG)
+        after = _digest(ix.raw())
+        r = rows.setdefault(name, {"call": name, "n": 0, "changed": 0, "wrote": 0, "failed": 0, "other": 0})
+        r["n"] += 1
+        r["changed"] += int(before != after)
+        r["wrote"] += wrote
+        if e == "TraphException":
+            r["failed"] += 1
+        elif e:
+            r["other"] += 1
+    return {"ro": [rows[k] for k in sorted(rows)]}
+
+
+hook_readonly = wrap(_readonly)
+
+
+# -------------------------------------------------------------------------- C11 / C15
+def _norm(x):
+    from collections import Counter
+    if isinstance(x, (set, frozenset)):
+        return sorted((_norm(v) for v in x), key=repr)
+    if isinstance(x, dict):
+        return sorted(((_norm(k), _norm(v)) for k, v in x.items()), key=repr)
+    if isinstance(x, (list, tuple)):
+        return [_norm(v) for v in x]
+    if isinstance(x, float) and x == int(x):
+        return int(x)
+    return x
+
+
+def answers_digest(ix, driver, salt):
+    """One digest of the answers of every read-only request of the C14 grid."""
+    import hashlib
+    h = hashlib.sha256()
+    for name, fn in readonly_calls(ix, driver, 0):
+        val, e = guarded(fn)
+        h.update(repr((name, e, _norm(val))).encode("utf-8", "replace"))
+    return h.hexdigest()
+
+
+def _life(ix, driver, i, op, res):
+    q = {"ans": answers_digest(ix, driver, i)}
+    if op is not None and op.get("op") == "Clear":
+        fresh = impl.Index(ix.backend, op["def"], op["rules"])
+        try:
+            a = impl.observe(fresh)
+            b = impl.observe(ix)
+            fresh.pool = set(getattr(ix, "pool", set()))
+            q["fresh"] = {"rawsame": fresh.raw() == ix.raw(), "obssame": a == b,
+                          "anssame": answers_digest(fresh, driver, i) == q["ans"]}
+        finally:
+            fresh.destroy()
+    return q
+
+
+hook_life = wrap(_life)
+
+
+def prehook_mmap(ix):
+    """Right after a request, before anything else touches the files: every block read through
+    FileStorage.map() must equal the block read through the storage itself."""
+    if ix.backend != "file":
+        return None
+    maps = []
+    for st in (ix.t.lru_trie_storage, ix.t.links_store_storage):
+        m, e = guarded(lambda: st.map())      # created first: sees the file as it is now
+        maps.append((st, m))
+    bad = n = 0
+    for st, m in maps:
+        if m is None:
+            bad += 1
+            continue
+        try:
+            for off in range(0, len(st), st.block_size):
+                n += 1
+                a, e1 = guarded(lambda: m.read(off))
+                b, e2 = guarded(lambda: st.read(off))
+                if e1 or e2 or bytes(a or b"") != bytes(b or b""):
+                    bad += 1
+        finally:
+            guarded(lambda: m.release())
+    return {"mmap": {"n": n, "bad": bad}}
+
+
+def _pairhook(ix, driver, i, op, res):
+    return {"ans": answers_digest(ix, driver, i)}
+
+
+hook_pair = wrap(_pairhook)
